@@ -25,3 +25,9 @@ CHECKS["C17"] = {
          "and priorities z3 integers: eligibility, (priority, time) minimality, None-iff-nothing-eligible, punt arithmetic, bounded delay, strictly "
          "increasing change times are validity queries on every path (2-3 entries); plus engine-level first-write-vs-ageing on the virtual clock (M2).",
  "technique": "bounded symbolic execution of SyncState scheduling code under a symbolic non-decreasing clock (z3 LRA/LIA validity per path); solver-enumerated engine schedules for the ageing law"}
+CHECKS["C09"] = {
+ "text": "Bounded symbolic verification (M1): the six SqliteStorage methods run for real over a symbolic 3-row relation; the SQL text they pass at run time is "
+         "interpreted symbolically and every result/exception/post-state is compared with a (tag,id)->bytes map by z3 validity queries, from an arbitrary table "
+         "(inductive step) and for 2-call sequences; each path is cross-checked on real in-memory SQLite. MockStorage: real class under solver-enumerated 3-4 call "
+         "sequences with re-open. On-disk durability and concurrent callers are outside this technique and not claimed.",
+ "technique": "bounded symbolic execution of SqliteStorage over a z3-encoded relation with run-time SQL interpretation; z3 validity queries against a map model; per-path translation validation on real SQLite"}
